@@ -213,11 +213,14 @@ func (g *gen) transferOp() *worldOp {
 		cs = w.mkCall(w.shardOf(from), "MultiESDTNFTTransfer", from, from, args, c.gasAround(uint64(k)*g.cost("MultiESDTNFTTransfer")+600))
 	}
 	cs.CallType = g.callType()
-	if c.rng.Intn(25) == 0 {
+	if c.rng.Intn(25) == 0 || (g.u.rich && c.rng.Intn(8) == 0) {
 		cs.RAE = true
 	}
 	if c.rng.Intn(30) == 0 {
 		cs.Value = big.NewInt(1)
+	}
+	if cs.CallType == vmcommon.AsynchronousCall || c.rng.Intn(20) == 0 { // gas locked for the callback: nothing, little, the whole gas, more than the gas
+		cs.Locked = []uint64{0, 1, 7, cs.Gas, cs.Gas + 1, 1 << 63}[c.rng.Intn(6)]
 	}
 	return &worldOp{Kind: opTx, Call: cs}
 }
@@ -327,6 +330,10 @@ func (g *gen) systemOp() *worldOp {
 		fn = "ESDTSetRole"
 	case 6:
 		args = [][]byte{tok, c.pick(u.AllRoles)}
+		if c.rng.Intn(3) == 0 { // more roles, possibly the same one twice
+			r := c.pick(u.AllRoles)
+			args = append(args, r, c.pick(u.AllRoles), r)[:2+c.rng.Intn(3)]
+		}
 		fn = "ESDTUnSetRole"
 	case 7:
 		rt := c.pick(u.NFTs)
